@@ -36,7 +36,9 @@ type Lock interface {
 }
 
 type lock struct {
-	// queues stores per-key FIFO queues of waiting callers.
+	// queues stores per-key FIFO queues of waiting callers. An entry exists
+	// only while its key is held or waited on: remove() prunes it as soon as
+	// the queue becomes empty.
 	queues sync.Map // map[string]*queue
 }
 
@@ -63,6 +65,12 @@ type caller struct {
 type queue struct {
 	mu      sync.Mutex
 	callers []*caller
+	// dead is set (under mu) when the queue became empty and was removed from
+	// lock.queues. A dead queue never accepts callers again: enqueue refuses,
+	// and the caller fetches the key's current queue instead. This is what
+	// makes pruning safe against a Lock that loaded the queue just before it
+	// was pruned.
+	dead bool
 }
 
 func newQueue() *queue {
@@ -71,20 +79,28 @@ func newQueue() *queue {
 
 // enqueue appends a new caller. If it lands at the head (queue was empty),
 // its ready channel is pre-closed so it can proceed immediately.
-func (q *queue) enqueue(c *caller) {
+// It returns false if the queue has been pruned in the meantime; the caller
+// must then retry with the key's current queue.
+func (q *queue) enqueue(c *caller) bool {
 	q.mu.Lock()
 	defer q.mu.Unlock()
+	if q.dead {
+		return false
+	}
 	wasEmpty := len(q.callers) == 0
 	q.callers = append(q.callers, c)
 	if wasEmpty {
 		close(c.ready)
 	}
+	return true
 }
 
-// remove deletes the caller with the given id from the queue. If the removed
-// caller was at the head, the next caller's ready channel is closed so it can
-// proceed. Returns true if the caller was found.
-func (q *queue) remove(id string) bool {
+// remove deletes the caller with the given id from the key's queue. If the
+// removed caller was at the head, the next caller's ready channel is closed so
+// it can proceed. When the queue becomes empty it is marked dead and its entry
+// is deleted from l.queues (still under q.mu), so the map only holds keys that
+// are currently held or waited on. Returns true if the caller was found.
+func (l *lock) remove(key string, q *queue, id string) bool {
 	q.mu.Lock()
 	defer q.mu.Unlock()
 	for i, c := range q.callers {
@@ -100,6 +116,12 @@ func (q *queue) remove(id string) bool {
 		if wasHead && len(q.callers) > 0 {
 			// Wake the next waiter.
 			close(q.callers[0].ready)
+		}
+		if len(q.callers) == 0 {
+			// Nobody holds or waits on this key any more: drop its entry.
+			q.dead = true
+			q.callers = nil
+			l.queues.CompareAndDelete(key, q)
 		}
 		return true
 	}
@@ -124,7 +146,10 @@ func (l *lock) Lock(ctx context.Context, key string, ttl time.Duration) (lockID 
 	}
 
 	q := l.getQueue(key)
-	q.enqueue(c)
+	for !q.enqueue(c) {
+		// The queue was pruned between getQueue and enqueue; take the fresh one.
+		q = l.getQueue(key)
+	}
 
 	// Wait until either we become the head of the queue (ready closed),
 	// or the caller's context is done.
@@ -140,7 +165,7 @@ func (l *lock) Lock(ctx context.Context, key string, ttl time.Duration) (lockID 
 			defer t.Stop()
 			select {
 			case <-t.C:
-				q.remove(lockID)
+				l.remove(key, q, lockID)
 			case <-c.done:
 				// Unlock (or another remove) already took us out;
 				// no work for the watchdog.
@@ -154,7 +179,7 @@ func (l *lock) Lock(ctx context.Context, key string, ttl time.Duration) (lockID 
 		// (race window: enqueue closed our ready right after we entered
 		// select), remove() still does the right thing — it wakes the
 		// next waiter when removing the head.
-		q.remove(lockID)
+		l.remove(key, q, lockID)
 		return "", errors.New("lock timeout")
 	}
 }
@@ -170,7 +195,7 @@ func (l *lock) Unlock(key string, lockID string) error {
 		return errors.New("caller not found")
 	}
 	q := v.(*queue)
-	if !q.remove(lockID) {
+	if !l.remove(key, q, lockID) {
 		return errors.New("caller not found")
 	}
 	return nil
